@@ -62,6 +62,21 @@ func c09Mutants(tx *pb.Transaction, spec *hx.TxSpec, resp *protos.InvokeResponse
 		m.TxOutputsExt = append(m.TxOutputsExt[:firstWrite], m.TxOutputsExt[firstWrite+1:]...)
 		add("write-dropped", m)
 	}
+	// one declared write replaced by a copy of another (same length: the dropped write is hidden)
+	var persistent []int
+	for i, o := range tx.TxOutputsExt {
+		if o.Bucket != hx.TransientBucket {
+			persistent = append(persistent, i)
+		}
+	}
+	if len(persistent) >= 2 {
+		m := c09Clone(tx)
+		m.TxOutputsExt[persistent[0]] = proto.Clone(m.TxOutputsExt[persistent[1]]).(*protos.TxOutputExt)
+		add("write-replaced-by-duplicate", m)
+		m = c09Clone(tx)
+		m.TxOutputsExt[persistent[len(persistent)-1]] = proto.Clone(m.TxOutputsExt[persistent[0]]).(*protos.TxOutputExt)
+		add("write-replaced-by-duplicate", m)
+	}
 	{
 		m := c09Clone(tx)
 		m.TxInputsExt = append(m.TxInputsExt, &protos.TxInputExt{Bucket: hx.VerifContract, Key: []byte("zz")})
